@@ -1,10 +1,10 @@
 CONSTANTS
-  Part = "value"
-  MaxDepth = 1
+  Part = "tag"
+  MaxDepth = 0
   SampleSize = 0
   NoTypeCheck = FALSE
   ImportOnlyNotFound = FALSE
-  MroRegistryLookup = FALSE
+  MroRegistryLookup = TRUE
   NoClassCheck = FALSE
 SPECIFICATION Spec
-CONSTRAINT EmitVal
+INVARIANT OnlyDocumented
